@@ -366,7 +366,7 @@ func ffTamperings(rng *rand.Rand, valid *ffTriple, others []*ffTriple, stranger 
 // forgeResponse builds a response whose validator set consists of attacker
 // keys only, correctly signed by them, optionally copying the content of a
 // valid frame.
-func forgeResponse(rng *rand.Rand, attackers []*SimKey, base *ffTriple, index int, round int, addr string) *ffTriple {
+func forgeResponse(rng *rand.Rand, attackers []*SimKey, base *ffTriple, index int, round int, addr string, named ...*peers.Peer) *ffTriple {
 	ps := []*peers.Peer{}
 	for i, a := range attackers {
 		na := fmt.Sprintf("evil:%d", i)
@@ -375,6 +375,8 @@ func forgeResponse(rng *rand.Rand, attackers []*SimKey, base *ffTriple, index in
 		}
 		ps = append(ps, mkPeer(a.K, na, fmt.Sprintf("evil%d", i)))
 	}
+	// validators the forger merely names as members of its set (they sign nothing)
+	ps = append(ps, named...)
 	t := &ffTriple{From: -1, Snapshot: []byte("forged state")}
 	if base != nil {
 		wireCopy(&base.Frame, &t.Frame)
